@@ -27,6 +27,15 @@ def groups(n, seed):
         else:
             pk["iteration_limit"] = 120
         gs.append({"tag": "C02", "runs": [{"prob": ps, "params": pk}]})
+    # starts outside the variable box whose objective value is already below the objective limit: "Unbounded" needs a
+    # *feasible* point, and feasibility includes the variable bounds
+    for i in range(max(6, n // 12)):
+        nv = int(rng.integers(1, 4))
+        ps = ("convex_qp", int(rng.integers(0, 2 ** 31)), nv, 0,
+              {"var_kinds": [["boxed", "lower", "upper"][(i + j) % 3] for j in range(nv)], "fmt": ("coo", "csr", "csc")[i % 3]})
+        pk = gen.random_params(rng, iteration_limit=60)
+        gs.append({"tag": "C02.outside", "runs": [{"prob": ps, "params": pk, "x0_outside": float([0.5, 2.0, 7.0][i % 3]),
+                                                   "obj_limit_at_start": [1.0, 0.0, 100.0][(i // 3) % 3]}]})
     return gs
 
 
